@@ -13,6 +13,7 @@ Also importable in a subprocess (`python -m harness.props.c19_redirect <snapdir>
 harness uses to run thermal-zone cases under other PYTHONHASHSEED values.
 """
 import glob as _real_glob
+import errno
 import importlib.util
 import json
 import os as _real_os
@@ -80,10 +81,47 @@ class _GlobShim:
         return _real_glob.glob(pattern, **kw)
 
 
+UNREAD_MODES = ("open_eacces", "open_enxio", "read_eio", "read_enodata", "read_enodev")
+
+
+class _FailingFile:
+    """What open() returns for an 'unreadable' file in the read_* modes: the open succeeds (as it does on a real
+    hwmon / power_supply attribute), every way of getting data out of it raises OSError(errno) — the failures the
+    comments in _pslinux.py cite (ENODATA, EIO, ENODEV at read(2) time)."""
+
+    def __init__(self, eno, name):
+        self.__dict__["_eno"] = eno
+        self.__dict__["name"] = name
+        self.__dict__["closed"] = False
+
+    def _fail(self, *a, **kw):
+        raise OSError(self._eno, _real_os.strerror(self._eno), self.name)
+
+    read = readline = readlines = read1 = readinto = __next__ = _fail
+
+    def __iter__(self):
+        return self
+
+    def __enter__(self):
+        return self
+
+    def __exit__(self, *a):
+        self.close()
+        return False
+
+    def close(self):
+        self.__dict__["closed"] = True
+
+    def __setattr__(self, k, v):          # open_text sets _CHUNK_SIZE
+        self.__dict__[k] = v
+
+
 class Redirect:
     def __init__(self):
         self.root = tempfile.mkdtemp(prefix="psv-sys-")
-        self.unreadable = set()          # REAL paths whose open() raises PermissionError
+        self.unreadable = set()          # REAL paths that cannot be read; HOW they fail: `unread_mode`
+        self.unread_mode = "open_eacces"
+        self.failed_reads = 0            # read-time failures actually delivered (evidence)
         self.sysconf_override = None
         self.opened = []                 # virtual paths opened (coverage / debugging)
 
@@ -100,6 +138,13 @@ class Redirect:
         rp = self.real(file)
         key = _real_os.fsdecode(rp) if isinstance(rp, (bytes, str)) else rp
         if key in self.unreadable:
+            mode = self.unread_mode
+            if mode == "open_enxio":
+                raise OSError(errno.ENXIO, "No such device or address", file)
+            if mode.startswith("read_"):
+                self.failed_reads += 1
+                return _FailingFile({"read_eio": errno.EIO, "read_enodata": errno.ENODATA,
+                                     "read_enodev": errno.ENODEV}[mode], file)
             raise PermissionError(13, "Permission denied", file)
         return _builtins.open(rp, *a, **kw)
 
@@ -109,6 +154,7 @@ class Redirect:
             shutil.rmtree(_real_os.path.join(self.root, n), ignore_errors=True)
         self.unreadable.clear()
         self.sysconf_override = None
+        self.unread_mode = "open_eacces"
 
     def mkdir(self, vpath):
         _real_os.makedirs(self.root + vpath, exist_ok=True)
@@ -270,7 +316,7 @@ class Impl:
         r = self.red
         r.mkdir("/sys/class/hwmon")
         for i, c in enumerate(chips):
-            d = "/sys/class/hwmon/hwmon%d" % i
+            d = "/sys/class/hwmon/hwmon%d" % c.get("dirn", i)
             r.mkdir(d)
             if c.get("nested"):
                 d += "/device"
@@ -294,13 +340,14 @@ class Impl:
         Returns per zone the set-iteration order of the derived trip-point NAMES (as this interpreter has it)."""
         r = self.red
         r.clear()
+        r.unread_mode = case.get("unread", "open_eacces")
         self.build_hwmon(case.get("chips", []))
         for k in range(case.get("coretemp", 0)):
             r.put("/sys/devices/platform/coretemp.0/hwmon/hwmon0/temp%d_input" % (k + 1), b"40000\n")
         r.mkdir("/sys/class/thermal")
         orders = []
         for i, z in enumerate(case.get("zones", [])):
-            d = "/sys/class/thermal/thermal_zone%d" % i
+            d = "/sys/class/thermal/thermal_zone%d" % z.get("dirn", i)
             r.mkdir(d)
             r.put(d + "/temp", fs_of(z.get("temp")))
             r.put(d + "/type", fs_of(z.get("typ")))
@@ -340,6 +387,7 @@ class Impl:
 
     def run_fans(self, case):
         self.red.clear()
+        self.red.unread_mode = case.get("unread", "open_eacces")
         self.build_hwmon(case.get("chips", []))
         with Patched(self.red, self.ps, [self.pl]):
             try:
@@ -357,6 +405,7 @@ class Impl:
     def run_battery(self, case):
         r = self.red
         r.clear()
+        r.unread_mode = case.get("unread", "open_eacces")
         if case.get("dir", True):
             r.mkdir("/sys/class/power_supply")
             for s in case.get("supplies", []):
@@ -380,6 +429,7 @@ class Impl:
     def run_cpufreq(self, case, cpuinfo_bytes):
         r = self.red
         r.clear()
+        r.unread_mode = case.get("unread", "open_eacces")
         r.mkdir("/sys/devices/system/cpu/cpufreq")
         for p in case.get("policies", []):
             d = "/sys/devices/system/cpu/cpufreq/policy%d" % p["n"]
@@ -418,6 +468,7 @@ class Impl:
     def run_cpucount(self, case, cpuinfo_bytes, stat_bytes):
         r = self.red
         r.clear()
+        r.unread_mode = case.get("unread", "open_eacces")
         r.mkdir("/sys/devices/system/cpu")
         for name, key in (("core_cpus_list", "core"), ("thread_siblings_list", "sib")):
             for i, f in enumerate(case.get(key, [])):
@@ -432,8 +483,9 @@ class Impl:
             except Exception as e:  # noqa: BLE001
                 return _exc(e)
 
-    def run_cpustats(self, stat_bytes):
+    def run_cpustats(self, stat_bytes, unread="open_eacces"):
         self.red.clear()
+        self.red.unread_mode = unread
         self.put_proc("stat", stat_bytes)
         with Patched(self.red, self.ps, [self.pl]):
             try:
@@ -442,8 +494,9 @@ class Impl:
             except Exception as e:  # noqa: BLE001
                 return _exc(e)
 
-    def run_boottime(self, stat_bytes):
+    def run_boottime(self, stat_bytes, unread="open_eacces"):
         self.red.clear()
+        self.red.unread_mode = unread
         self.put_proc("stat", stat_bytes)
         with Patched(self.red, self.ps, [self.pl]):
             try:
@@ -452,6 +505,27 @@ class Impl:
                 return _exc(e)
             finally:
                 self.pl.BOOT_TIME = None
+
+    def run_boottime_seq(self, stats, unread="open_eacces"):
+        """a HISTORY of boot_time() calls, each on the /proc/stat of its moment, WITHOUT touching the module global
+        BOOT_TIME in between (it starts unset, as in a fresh interpreter): a function that served a remembered value
+        would show here. → one result per call + whether the global kept the FIRST value (what create_time() relies on)."""
+        self.red.clear()
+        self.red.unread_mode = unread
+        outs = []
+        self.pl.BOOT_TIME = None
+        with Patched(self.red, self.ps, [self.pl]):
+            try:
+                for st in stats:
+                    self.put_proc("stat", st)
+                    try:
+                        outs.append({"kind": "ok", "value": self.ps.boot_time()})
+                    except Exception as e:  # noqa: BLE001
+                        outs.append(_exc(e))
+                g = self.pl.BOOT_TIME
+            finally:
+                self.pl.BOOT_TIME = None
+        return {"calls": outs, "global": g}
 
 
 def main(argv):
